@@ -62,13 +62,17 @@ func otLineBytes(so [][2][][]byte, ro [][][]byte) string {
 // base OTs
 
 func c09BaseOTs(c *Ctx) {
-	c09BaseOTsCurve(c, "k256", cK256, 1)
-	c09BaseOTsCurve(c, "p256", cP256, 2)
-	c09BaseOTsCurve(c, "ed25519", cEd25519, 3)
-	if c.Thorough() {
-		c09BaseOTsCurve(c, "pallas", cPallas, 4)
-		c09BaseOTsCurve(c, "bls12381g1", cBLSG1, 5)
+	jobs := []func(*Ctx){
+		func(c *Ctx) { c09BaseOTsCurve(c, "k256", cK256, 1) },
+		func(c *Ctx) { c09BaseOTsCurve(c, "p256", cP256, 2) },
+		func(c *Ctx) { c09BaseOTsCurve(c, "ed25519", cEd25519, 3) },
 	}
+	if c.Thorough() {
+		jobs = append(jobs,
+			func(c *Ctx) { c09BaseOTsCurve(c, "pallas", cPallas, 4) },
+			func(c *Ctx) { c09BaseOTsCurve(c, "bls12381g1", cBLSG1, 5) })
+	}
+	c09Parallel(c, jobs)
 }
 
 type c09Cfg struct{ xi, l int }
